@@ -68,6 +68,16 @@ def drive_legacy(tier):
             for idx in range(len(d["vin"]) + 1):
                 sub = gen_subscript(r, r.choice([0, 0, 0, 200, 300]))
                 sc = CScript(sub)
+                if mut and idx == 1:
+                    call(RawSignatureHash, sc, tx, 0, 1)
+                    d = dict(d)
+                    d["vout"] = [dict(o) for o in d["vout"]] + [{"value": 9, "script": b"\x52"}]
+                    d["vin"] = [dict(i) for i in d["vin"]]
+                    d["vin"][0]["seq"] = (d["vin"][0]["seq"] + 1) & 0xffffffff
+                    tx2 = gen.build_tx(d, True)
+                    tx.vout, tx.vin = tx2.vout, tx2.vin
+                    js = gen.tx_json(d)
+                    before = tx.serialize()
                 for ht in hts:
                     k, v = call(RawSignatureHash, sc, tx, idx, ht)
                     same = tx.serialize() == before
@@ -106,6 +116,19 @@ def drive_v0(tier):
             for idx in range(len(d["vin"])):
                 code = gen.rbytes(r, CL[(si + idx) % len(CL)])
                 amount = AM[(si + idx) % len(AM)] if r.random() < 0.7 else r.getrandbits(63)
+                if mut and idx == 0:
+                    # a history on one mutable object: hash, edit, hash again - the second digest is of the current values
+                    call(SignatureHash, CScript(code), tx, idx, 1, amount, SIGVERSION_WITNESS_V0)
+                    d = dict(d)
+                    d["vout"] = [dict(o) for o in d["vout"]] + [{"value": 7, "script": b"\x51"}]
+                    d["vin"] = [dict(i) for i in d["vin"]]
+                    d["vin"][-1]["seq"] = (d["vin"][-1]["seq"] + 1) & 0xffffffff
+                    if d["vout"]:
+                        d["vout"][0]["value"] = 12345
+                    tx2 = gen.build_tx(d, True)
+                    tx.vout, tx.vin = tx2.vout, tx2.vin
+                    js = gen.tx_json(d)
+                    before = tx.serialize()
                 for ht in hts:
                     k, v = call(SignatureHash, CScript(code), tx, idx, ht, amount, SIGVERSION_WITNESS_V0)
                     same = tx.serialize() == before
